@@ -33,7 +33,17 @@ echo "   exit $RC2 (expected non-zero)"
 if [ "$SUITE" != "--no-suite" ]; then
   rm -f "$DEMO_PATH"
   echo "-- repository suite with the patch (nextest, 8 threads)"
-  timeout 3000 cargo nextest run --workspace --no-fail-fast --test-threads 8 --offline > "$D/suite_patched.log" 2>&1
+  # scope: a change under channels/ can reach every crate (cache and logging build on it): whole workspace;
+  # a change confined to cache/, logging/ or ioc/ can only reach that crate's tests
+  SCOPE="--workspace"
+  TOUCHED=$(grep '^+++ b/' "$D/patch.diff" | sed 's#^+++ b/##' | cut -d/ -f1 | sort -u | tr '\n' ' ')
+  case "$TOUCHED" in
+    "cache ") SCOPE="-p fibre_cache" ;;
+    "logging ") SCOPE="-p fibre_logging" ;;
+    "ioc ") SCOPE="-p fibre_ioc" ;;
+  esac
+  echo "   scope: $SCOPE (touched: $TOUCHED)"
+  timeout 3000 cargo nextest run $SCOPE --no-fail-fast --test-threads 8 --offline > "$D/suite_patched.log" 2>&1
   grep -E "^\s+Summary|^\s+(FAIL|TIMEOUT|SIGABRT|SIGSEGV)" "$D/suite_patched.log" | sort | uniq -c | sort -rn | head -20
 fi
 echo "RESULT clean_demo=$RC1 patched_demo=$RC2"
